@@ -78,7 +78,7 @@ func writeBoundedReplay(prop string, r boundedResult) string {
 var boundedChecks = []boundedCheck{
 	{prop: "C16", props: []string{"C11"}, name: "bounded:deepcopy.TraverseStringsFunc", fn: "github.com/go-task/task/v3/internal/deepcopy.TraverseStringsFunc",
 		why:    "the function is written with package reflect; the engine havocs reflection results, so no safety obligation can be stated over it",
-		bound:  "the listed YAML documents (every YAML 1.1 core scalar type incl. timestamp, binary, null, merge keys, anchors, nesting depth <= 4), each decoded to `any` and traversed",
+		bound:  "the listed YAML documents (every YAML 1.1 core scalar type incl. timestamp, binary, null, merge keys, anchors, nesting depth <= 4; every scalar type also as a MAP KEY, NaN included), each decoded to `any` and traversed",
 		pkgRel: "internal/deepcopy",
 		src: `package deepcopy
 
@@ -95,6 +95,7 @@ func TestGvcReplay(t *testing.T) {
 		"[]", "{}", "[a, 1, 2001-12-14, ~, [b, [c, [d]]]]", "{k: v, n: 1, d: 2001-12-14, z: ~, m: {x: {y: {z: 2002-01-01}}}}",
 		"- &a {x: 1}\n- *a\n- <<: *a\n  y: 2", "{1: a, 2.5: b, true: c}", "? [a, b]\n: c", "x: !!str 2001-12-14", "x: !!float 1", "x: !!int '3'",
 		"- {d: [2001-12-14, {t: 2001-12-14 21:59:43}]}", "s: |\n  multi\n  line", "e: {{.X}}", "'{{.X}}'",
+		"{.nan: 1, a: b}", "{.inf: 1, -.inf: 2}", "m: {.nan: {.nan: x}}", "{~: 1}", "{2001-12-14: d}",
 	}
 	n := 0
 	for _, d := range docs {
